@@ -257,10 +257,21 @@ def payload_slots(mod, session):
             proj = mod.project
             i = v % max(1, min(96, mod.user_defined_controllers + 1))
             m = mod.mappings.values[i]
-            m.module = (v >> 8) % (len(proj.modules) + 2)
-            tgt = proj.modules[m.module] if m.module < len(proj.modules) else None
-            nctl = len(tgt.controllers) if tgt is not None else 3
-            m.controller = (v >> 16) % (nctl + 2)
+            if CUR_LAYOUT >= 2:
+                # mappings name existing embedded controllers: re-mapping an attached user
+                # controller to a non-existent target leaves its *live* value type stale (the
+                # loader resets it), which is C15's question, not C01's - see DESIGN §13
+                valid = [x for x in proj.modules if x is not None and x.index > 0 and len(x.controllers) > 0]
+                if not valid:
+                    return
+                tgt = valid[(v >> 8) % len(valid)]
+                m.module = tgt.index
+                m.controller = (v >> 16) % len(tgt.controllers)
+            else:
+                m.module = (v >> 8) % (len(proj.modules) + 2)
+                tgt = proj.modules[m.module] if m.module < len(proj.modules) else None
+                nctl = len(tgt.controllers) if tgt is not None else 3
+                m.controller = (v >> 16) % (nctl + 2)
             # The loader refreshes the user-defined controllers' value types after reading the
             # mappings; a live MetaModule only does so when asked.  Refresh here unless the new
             # target is a plain non-negative range (then live and loaded value spaces coincide
@@ -686,6 +697,81 @@ class Session:
                 return "skip"
             M.MultiCtl.macro(p, *pairs)
             return "macro"
+        if k == "udscn":
+            # scenario macro: a MetaModule user-defined controller is mapped, given a value, and
+            # re-mapped to another embedded controller (each step optionally without the refresh
+            # a loader would do) - the multi-step state single random ops almost never reach
+            mms = [m for m in self.mods() if isinstance(m, MetaModule)]
+            if not mms:
+                mm = p.new_module(MetaModule)
+            else:
+                mm = mms[op.get("mm", 0) % len(mms)]
+            sub = Session(mm.project, self.depth + 1, self.layout)
+            while len([x for x in sub.mods() if type(x).__name__ != "Output"]) < 2:
+                sub.apply({"k": "mod", "t": op.get("t", 0) + len(sub.mods()) * 7, "any": False})
+            emb = [x for x in mm.project.modules if x is not None and type(x).__name__ != "Output"]
+            i = op.get("i", 0) % 4
+            if mm.user_defined_controllers <= i:
+                mm.user_defined_controllers = i + 1
+            outs = []
+            for step, key in enumerate(("a", "b")):
+                msel, csel = op.get(key, [0, 0])
+                tgt = emb[msel % len(emb)]
+                names = list(tgt.controllers)
+                mp = mm.mappings.values[i]
+                mp.module = tgt.index
+                mp.controller = csel % len(names)
+                # the refresh may be skipped only between plain non-negative ranges (see set_mapping)
+                tt = tgt.controllers[names[mp.controller]].instance_value_type(tgt)
+                cur = mm.user_defined[i].value_type
+                may_skip = type(tt) is Range and tt.min >= 0 and type(cur) is Range and cur.min >= 0
+                if (op.get("update", 0) >> step) & 1 or not may_skip:
+                    mm.update_user_defined_controllers()
+                if step == 0:
+                    ud = mm.user_defined[i]
+                    t = ud.value_type
+                    try:
+                        if isinstance(t, Range):
+                            setattr(mm, ud.name, pick_int(op.get("v", 0), t.min, t.max))
+                        outs.append("set")
+                    except rv.errors.RadiantVoicesError:
+                        outs.append("refused")
+                    except (IndexError, ValueError, TypeError, AttributeError):
+                        outs.append("error")
+            return "udscn:" + ",".join(outs)
+        if k == "twin":
+            # scenario macro: two modules with identical (non-default) payload in one project
+            ms = [m for m in self.mods() if type(m).__name__ != "Output"]
+            pay = [m for m in ms if payload_slots(m, self)]
+            pool = pay if (pay and op.get("pay", 1)) else ms
+            if not pool:
+                pool = [p.new_module(TYPES[op.get("t", 0) % len(TYPES)])]
+            src = pool[op.get("m", 0) % len(pool)]
+            slots = payload_slots(src, self) or module_slots(src, self)
+            for j, v in enumerate(op.get("vs", ())):
+                label, setter = slots[(op.get("s", 0) + j) % len(slots)]
+                try:
+                    setter(v)
+                except (rv.errors.RadiantVoicesError, IndexError, ValueError):
+                    pass
+            c = src.clone()
+            p.attach_module(c)
+            return "twin:" + type(src).__name__
+        if k == "hubscn":
+            # scenario macro: one source toggles links to many destinations (long out tables,
+            # freed slots, slot numbers that keep growing because freed slots are never reused)
+            while len(self.mods()) < 2 + op.get("fan", 3) % 20:
+                p.new_module(SIMPLE_TYPES[(op.get("t", 0) + len(self.mods())) % len(SIMPLE_TYPES)])
+            ms = self.mods()
+            hub = ms[op.get("hub", 1) % len(ms)]
+            n = op.get("n", 10)
+            for j in range(n):
+                d = ms[mix(op.get("v", 0), j) % len(ms)]
+                if mix(op.get("v", 0), j + 1000) % 3 == 0:
+                    p.connect(hub, ~d)
+                else:
+                    p.connect(hub, d)
+            return "hubscn:%d" % n
         if k == "set":
             ms = self.mods()
             m = ms[op["m"] % len(ms)]
@@ -778,6 +864,13 @@ def gen_op(r, weights=None, depth=0):
         return {"k": "clone_mod", "m": r.randrange(1000)}
     if k == "macro":
         return {"k": "macro", "pairs": [[r.randrange(100), r.randrange(100)] for _ in range(r.randint(1, 4))]}
+    if k == "udscn":
+        return {"k": "udscn", "mm": r.randrange(10), "t": r.randrange(1000), "i": r.randrange(4), "a": [r.randrange(20), r.randrange(40)], "b": [r.randrange(20), r.randrange(40)],
+                "v": big, "update": r.choice([0, 0, 1, 2, 3])}
+    if k == "twin":
+        return {"k": "twin", "m": r.randrange(100), "t": r.randrange(1000), "s": r.randrange(100), "vs": [r.getrandbits(62) for _ in range(r.randint(1, 4))], "pay": r.random() < 0.8}
+    if k == "hubscn":
+        return {"k": "hubscn", "hub": r.randrange(100), "fan": r.randrange(20), "t": r.randrange(1000), "n": r.choice([5, 20, 40, 300]), "v": big}
     if k == "set":
         return {"k": "set", "m": r.randrange(1000), "s": r.randrange(100000), "v": big}
     if k == "pset":
@@ -820,7 +913,7 @@ def gen_link_op(r, foreign_p=0.0):
 
 
 WEIGHTS_V1 = {"mod": 3, "set": 10, "pset": 2, "pat": 1.5, "tset": 1, "cell": 3, "link": 4, "embed": 1.5}  # frozen: layout-1 gen specs
-DEFAULT_WEIGHTS = {"mod": 3, "set": 10, "pset": 2, "pat": 1.5, "tset": 1, "cell": 3, "link": 4, "embed": 1.5, "modkw": 1.2, "clone_mod": 0.8}
+DEFAULT_WEIGHTS = {"mod": 3, "set": 10, "pset": 2, "pat": 1.5, "tset": 1, "cell": 3, "link": 4, "embed": 1.5, "modkw": 1.2, "clone_mod": 0.8, "udscn": 0.5, "twin": 0.4, "hubscn": 0.15}
 
 
 def gen_ops(r, n, weights=None, first_mods=3):
@@ -838,6 +931,9 @@ def generated_file(spec):
         ops += [{"k": "mod", "t": TYPE_NAMES.index("MetaModule")}, {"k": "mod", "t": TYPE_NAMES.index("Sampler")}]
         ops += [{"k": "embed", "m": 0, "op": {"k": "mod", "t": TYPE_NAMES.index("MetaModule")}}]
         ops += [{"k": "embed", "m": 0, "op": {"k": "mod", "t": r.randrange(1000)}}]
+    if spec.get("nest") and spec.get("layout", 1) >= 2:
+        ops += [gen_op(r, {"udscn": 1}), gen_op(r, {"udscn": 1}), {"k": "mod", "t": TYPE_NAMES.index("MetaModule")}, gen_op(r, {"udscn": 1}), gen_op(r, {"twin": 1}), gen_op(r, {"twin": 1})]
+        ops += [{"k": "mod", "t": TYPE_NAMES.index("MultiCtl")}, gen_op(r, {"twin": 1}), dict(gen_op(r, {"hubscn": 1}), n=r.choice([20, 40]))]
     ops += gen_ops(r, spec.get("n", 25), WEIGHTS_V1 if spec.get("layout", 1) < 2 else None)
     for op in ops:
         s.apply(op)
